@@ -532,7 +532,9 @@ def run_api(hexe, drv, wd, scen, runtag):
                     pf, td = prop_fail, tie_diffs
                 if r.get('f15'):
                     # checker accepts (overflow), request then fails with NC_EFILE; nothing may change
-                    if real_err != 0 and rec['chg'] == '-':
+                    if real_err == EEDGE and rec['chg'] == '-' and img == img0:
+                        pass        # rejected with the documented error: the defect is repaired in this tree
+                    elif real_err != 0 and rec['chg'] == '-':
                         pf.append((SIG_F15, 'request outside the variable (stride 2^62) is not rejected by the checker; '
                                           'the call fails later with undocumented error %d' % real_err, desc))
                     elif real_err == 0:
@@ -696,7 +698,10 @@ def run_check(tier, seed):
                 if sig == SIG_F15:
                     dist['unit:F15-witness'] = dist.get('unit:F15-witness', 0) + 1
             if real != m64:
-                tie_diffs.append((line, co[i], lo[i]))
+                # outside the no-overflow envelope C's behaviour is undefined; agreeing with the exact
+                # (specification-conforming) model there is not a discrepancy (= the F15 repair)
+                if not (real == mex and overflow_class(k or parse_k(line))):
+                    tie_diffs.append((line, co[i], lo[i]))
         n_unit = len(unit_seen)
         log('[S4] unit: %d distinct tuples through the real checker and the Lean model in %.1fs' % (n_unit, t1.s()))
         # ---------------- api stream
